@@ -22,5 +22,6 @@ RULES = [
     ("C06.shrink", lambda c, r: lfht.rule_shrink(c, r, "C06.shrink")),
     ("C06.addskel", lambda c, r: __import__("sa.rules.lfht2", fromlist=["x"]).rule_addskel(c, r, "C06.addskel")),
     ("C06.entry", lambda c, r: __import__("sa.rules.lfht2", fromlist=["x"]).rule_entry(c, r, "C06.entry")),
+    ("C06.addprev", lambda c, r: __import__("sa.rules.lfht2", fromlist=["x"]).rule_addprev(c, r, "C06.addprev")),
 ]
 FLOORS = {}
